@@ -98,6 +98,7 @@ mutual
 def mCanErr : Matcher → Bool
   | .atom _ _ => false
   | .err _ _ => true
+  | .legacy _ => false
   | .not sets => setsCanErr sets
 def setsCanErr : List (List Matcher) → Bool
   | [] => false
